@@ -1,2 +1,248 @@
-// Package c06: correspondence harness for property C06 (stub — registers nothing yet).
+// Package c06: destroying or failing to create an environment leaves nothing behind.
+//
+// Scenarios (harness/ownh input format) on the REAL core through the whole-core
+// simulator: destroy requested in every reachable state with every combination
+// of force / allowInRunningState / keepTasks (and with the STOP / RESET it issues
+// failing), creation failing at template load, detector check, deployment and
+// configuration, kill outcome scripts, DESTROY / after_DESTROY hook tasks at one
+// or several weights (held at a gate while the harness looks at the locks),
+// pending calls. After every round: listing, ownership, KILL calls, active
+// detectors, cancelled calls; a final creation needing the same detector checks
+// that it is free again.
 package c06
+
+import (
+	"fmt"
+
+	"verifharness/fw"
+	"verifharness/ownh"
+	"verifharness/rng"
+	"verifharness/sx"
+)
+
+func flags(i int) (bool, bool, bool) { return i&4 != 0, i&2 != 0, i&1 != 0 }
+
+// matrix: the systematic part.
+func matrix() []fw.Case {
+	var cs []fw.Case
+	add := func(tag string, b *ownh.B) { cs = append(cs, fw.Case{Input: b.String(), Tags: []string{tag}}) }
+	probe := func(b *ownh.B, flps []int) int { return b.Env("ok", flps, ownh.OKT(91, 4)) }
+
+	// destroy in every state × flags; afterwards a creation needing the same detector
+	states := []struct {
+		name string
+		prep []string
+		tr   string
+	}{
+		{"CONFIGURED", nil, "ok"},
+		{"RUNNING", []string{"START"}, "ok"},
+		{"DEPLOYED", []string{"RESET"}, "ok"},
+		{"ERROR", []string{"START"}, "START:err"},
+		{"ERROR2", []string{"START", "STOP"}, "STOP:stay"},
+	}
+	for _, st := range states {
+		for f := 0; f < 8; f++ {
+			force, allow, keep := flags(f)
+			b := &ownh.B{}
+			k := b.Env("ok", []int{1}, ownh.T(1, 1, "ok", "ok", st.tr, "ok"), ownh.T(2, 2, "ok", "ok", "ok", rng.Pick(rng.New(uint64(f)), []string{"ok", "failed", "delay"})))
+			p := probe(b, []int{2})
+			b.Round(ownh.New(k))
+			for _, ev := range st.prep {
+				b.Round(ownh.Ctl(k, ev))
+			}
+			b.Round(ownh.Destroy(k, force, allow, keep)).Round(ownh.New(p)).Round(ownh.Destroy(k, force, allow, keep)).Round(ownh.Cleanup())
+			add("destroy-"+st.name, b)
+		}
+	}
+	// the STOP / RESET issued by DestroyEnvironment fails
+	for _, tr := range []string{"STOP:stay", "STOP:err", "RESET:stay", "RESET:err"} {
+		for _, keep := range []bool{false, true} {
+			b := &ownh.B{}
+			k := b.Env("ok", []int{3}, ownh.T(1, 1, "ok", "ok", tr, "ok"), ownh.OKT(2, 3))
+			p := probe(b, []int{3})
+			b.Round(ownh.New(k))
+			if tr[:4] == "STOP" {
+				b.Round(ownh.Ctl(k, "START"))
+			}
+			b.Round(ownh.Destroy(k, false, true, keep)).Round(ownh.New(p))
+			add("destroy-inner-failure", b)
+		}
+	}
+	// creation failing at every stage, next to a live environment; then what was left behind gets every chance to show
+	type stage struct {
+		tag   string
+		bad   string
+		flps  []int
+		roles []*sx.Node
+	}
+	stages := []stage{
+		{"create-fails-load", "nowf", []int{3}, []*sx.Node{ownh.OKT(11, 1)}},
+		{"create-fails-load", "noclass", []int{3}, []*sx.Node{ownh.OKT(11, 1)}},
+		{"create-fails-detector", "ok", []int{2, 3}, []*sx.Node{ownh.OKT(11, 1), ownh.OKT(12, 3)}},
+		{"create-fails-deploy", "ok", []int{3}, []*sx.Node{ownh.T(11, 1, "die", "ok", "ok", "ok")}},
+		{"create-fails-deploy", "ok", []int{3}, []*sx.Node{ownh.T(11, 1, "die", "ok", "ok", "ok"), ownh.T(12, 2, "slow", "ok", "ok", "ok"), ownh.T(13, 3, "slow", "ok", "ok", "ok")}},
+		{"create-fails-deploy", "ok", []int{3}, []*sx.Node{ownh.T(11, 1, "die", "ok", "ok", "ok"), ownh.OKT(12, 2), ownh.OKT(13, 3)}},
+		{"create-fails-deploy", "ok", []int{3}, []*sx.Node{ownh.OKT(11, 1), ownh.T(12, 2, "slow", "ok", "ok", "ok")}},
+		{"create-fails-configure", "ok", []int{3}, []*sx.Node{ownh.T(11, 1, "ok", "stay", "ok", "ok"), ownh.OKT(12, 2)}},
+		{"create-fails-configure", "ok", []int{3}, []*sx.Node{ownh.OKT(11, 1), ownh.T(12, 2, "ok", "err", "ok", "failed"), ownh.P()}},
+		{"create-fails-configure", "ok", []int{3}, []*sx.Node{ownh.T(11, 1, "ok", "err", "ok", "ok"), ownh.H(12, 2, 10, false, "ok", "ok")}},
+	}
+	for _, st := range stages {
+		b := &ownh.B{}
+		live := b.Env("ok", []int{1}, ownh.OKT(1, 1), ownh.OKT(2, 2))
+		k := b.Env(st.bad, st.flps, st.roles...)
+		p := probe(b, []int{3})
+		b.Round(ownh.New(live)).Round(ownh.New(k)).Round(ownh.Rel(k)).Round(ownh.New(p)).Round(ownh.Cleanup()).Round(ownh.Destroy(live, false, false, false))
+		add(st.tag, b)
+	}
+	// a role pinned to a host that does not exist (last: the simulated master does not re-offer)
+	{
+		b := &ownh.B{}
+		k := b.Env("ok", []int{1}, ownh.OKT(1, 1), ownh.OKT(2, 9))
+		b.Round(ownh.New(k))
+		add("create-fails-deploy", b)
+	}
+	// DESTROY hooks: one, two at one weight, several weights, after_DESTROY overriding DESTROY, failing hook; every destroy flavour
+	hookSets := [][]*sx.Node{
+		{ownh.H(3, 1, 10, false, "ok", "ok")},
+		{ownh.H(3, 1, 10, false, "ok", "ok"), ownh.H(4, 2, 10, false, "ok", "ok")},
+		{ownh.H(3, 1, 10, false, "ok", "ok"), ownh.H(4, 2, 20, false, "ok", "ok")},
+		{ownh.H(3, 1, -5, false, "ok", "ok"), ownh.H(4, 2, 0, true, "ok", "ok"), ownh.H(5, 3, 30, false, "ok", "fail")},
+		{ownh.H(3, 1, 10, false, "ok", "ok"), ownh.H(4, 2, 10, true, "ok", "ok")},
+		{ownh.H(3, 1, 0, true, "ok", "fail")},
+	}
+	for i, hs := range hookSets {
+		for f := 0; f < 4; f++ {
+			force, keep := f&2 != 0, f&1 != 0
+			b := &ownh.B{}
+			roles := append([]*sx.Node{ownh.OKT(1, 1), ownh.OKT(2, 4)}, hs...)
+			if i%2 == 1 {
+				roles = append(roles, ownh.P())
+			}
+			k := b.Env("ok", []int{1}, roles...)
+			p := probe(b, []int{1})
+			b.Round(ownh.New(k))
+			if f == 3 {
+				b.Round(ownh.Ctl(k, "START"))
+			}
+			b.Round(ownh.Destroy(k, force, true, keep)).Round(ownh.New(p)).Round(ownh.Cleanup())
+			add(fmt.Sprintf("destroy-hooks-%d", len(hs)), b)
+		}
+	}
+	// pending calls, two destroys at once, destroy next to another environment's control
+	{
+		b := &ownh.B{}
+		a := b.Env("ok", []int{1}, ownh.OKT(1, 1), ownh.P(), ownh.P())
+		c := b.Env("ok", []int{3}, ownh.OKT(11, 1), ownh.OKT(12, 2), ownh.P())
+		b.Round(ownh.New(a), ownh.New(c)).Round(ownh.Ctl(c, "START"), ownh.Destroy(a, false, false, false), ownh.Destroy(a, true, false, true)).
+			Round(ownh.Destroy(c, false, false, false)).Round(ownh.Destroy(c, false, true, false))
+		add("destroy-concurrent", b)
+	}
+	return cs
+}
+
+func genCase(r *rng.R) fw.Case {
+	b := &ownh.B{}
+	nEnv := r.Range(1, 3)
+	for i := 0; i < nEnv; i++ {
+		b.RandEnv(r, ownh.EnvOpts{FailP: 200, HookP: 350, CallP: 150})
+	}
+	probe := b.Env("ok", []int{r.Range(1, 4)}, ownh.OKT(91, 4))
+	var created []int
+	next := 0
+	nRounds := r.Range(3, 7)
+	for i := 0; i < nRounds; i++ {
+		n := 1
+		if r.P(1, 4) {
+			n = 2
+		}
+		var ops []*sx.Node
+		var newHere []int
+		// DestroyEnvironment's STOP / RESET / teardown are separate critical sections: a control request on the
+		// same environment can slip in between; such pairs are not generated (two destroys of one environment are)
+		touched := map[int]string{}
+		for j := 0; j < n; j++ {
+			switch {
+			case next < nEnv && (len(created) == 0 || r.P(1, 3)):
+				ops = append(ops, ownh.New(next))
+				newHere = append(newHere, next)
+				next++
+			case len(created) == 0:
+				ops = append(ops, ownh.Cleanup())
+			default:
+				k := rng.Pick(r, created)
+				kind := r.N(10)
+				isDestroy := (kind >= 3 && kind <= 7)
+				if prev, ok := touched[k]; ok && !(prev == "destroy" && isDestroy) {
+					ops = append(ops, ownh.Cleanup())
+					continue
+				}
+				if isDestroy {
+					touched[k] = "destroy"
+				} else {
+					touched[k] = "other"
+				}
+				switch kind {
+				case 0, 1, 2:
+					ops = append(ops, ownh.Ctl(k, rng.Pick(r, []string{"START", "START", "STOP", "RESET", "CONFIGURE"})))
+				case 3, 4, 5, 6, 7:
+					ops = append(ops, ownh.Destroy(k, r.P(1, 3), r.P(1, 2), r.P(1, 3)))
+				case 8:
+					ops = append(ops, ownh.Cleanup())
+				default:
+					ops = append(ops, ownh.Rel(k))
+				}
+			}
+		}
+		b.SafeRound(ops...)
+		created = append(created, newHere...)
+	}
+	b.Round(ownh.New(probe))
+	return fw.Case{Input: b.String(), Tags: []string{"random", fmt.Sprintf("envs=%d", nEnv)}}
+}
+
+func generate(tier string, r *rng.R) []fw.Case {
+	n := 60
+	if tier == "thorough" {
+		n = 1200
+	}
+	cs := matrix()
+	for i := 0; i < n; i++ {
+		cs = append(cs, genCase(r.Fork()))
+	}
+	return cs
+}
+
+func nontrivial(input, obs string) bool {
+	_, rounds, ops, creates, destroys := ownh.Shape(input)
+	return rounds >= 3 && ops >= 3 && creates >= 1 && (destroys >= 1 || creates >= 2)
+}
+
+func init() {
+	fw.Register(&fw.Property{
+		ID:         "C06",
+		Generate:   generate,
+		RunImpl:    ownh.RunRetry,
+		Nontrivial: nontrivial,
+		Rule: "systematic part: destroy in {CONFIGURED, RUNNING, DEPLOYED, ERROR after failed START, ERROR after failed STOP} x all 8 combinations of " +
+			"force/allowInRunningState/keepTasks (each followed by a creation needing the same detector, a second destroy and a cleanup), the STOP/RESET issued by destroy failing, " +
+			"creation failing at template load (no workflow, no task class), detector check, deployment (task dies at launch with prompt / slow siblings, slow task only, no such host) " +
+			"and configuration (task stays / goes to ERROR, with hook task, with pending call) next to a live environment, DESTROY/after_DESTROY hook tasks (1; 2 at one weight; 2 and 3 weights; " +
+			"after_DESTROY overriding DESTROY; failing hook) x force x keepTasks, pending calls, concurrent destroys; random part: 1–3 environments (20% of roles with a scripted failure, " +
+			"35% with hooks, 15% with pending calls), 3–7 rounds of 1–2 concurrent requests dominated by destroys; each scenario = one real core in its own process; " +
+			"non-trivial = >=3 rounds, >=3 requests, a creation and (a destroy or a second creation); distinct by input text",
+		Shrink:  ownh.Shrink,
+		Workers: 6,
+		TrustedBase: []string{
+			"harness/sim (whole-core simulator: Mesos master/agents/executors with outcome scripts and gates, Consul KV, workflow repository) and /repo/core/verif_hooks.go (core.RunForVerif)",
+			"harness/ownh (scenario engine: canonical names from the master's task table, settled snapshots through the gRPC API, hook gates, hang diagnosis, pending-call lines of the core's debug log)",
+			"Driver/OwnCommon.lean (monitor: interleaving search, oracles read off the observation, view rendering)",
+		},
+		Assumptions: []string{
+			"the simulated master answers KILL at once (fairness premise: the master eventually reports killed tasks; KillTasks blocks on the acknowledgement)",
+			"a call that has not returned after 12 s (normal: 0.05–5 s) is recorded as a hang only when the core itself lists the environment inside transition DESTROY; otherwise the case is inconclusive",
+			"'pending calls cancelled' is read from the core's debug log line of the call goroutine (hook:<trigger>:<role> cancelled)",
+			"release failures cannot be scripted through the API (they need a task locked by another environment); that branch is covered by the model and its theorems only",
+		},
+	})
+}
